@@ -279,6 +279,11 @@ def frame_pool():
         ("rtcm800", rtcm(bytes.fromhex("43200000") + bytes(796))),   # d3 03
         ("rtcmmax", rtcm(bytes.fromhex("3ed00003") + bytes(1019))),  # d3 03 ff: the largest frame
         ("nmeaA", nmea(b"IVDM,1,1,,A,13u?etPv2;0n:dDPwUM1U1Cb069D,0", talker=b"A")),
+        # well-framed (valid length and checksum) UBX frames whose payload is too short for a definition with float /
+        # array attributes: refused by the UBX parser with UBXTypeError (not a parse or stream error)
+        ("ubxshortR", gen.ubx_frame(0x02, 0x15, bytes(4))),        # RXM-RAWX: rcvTow is R8
+        ("ubxshortC", gen.ubx_frame(0x01, 0x36, bytes(18))),       # NAV-COV: R4 members
+        ("ubxshortA", gen.ubx_frame(0x0a, 0x31, b"\x00\x01" + bytes(10))),   # MON-SPAN: A256 array
     ]
 
 
